@@ -155,7 +155,8 @@ pub mod atomic {
                 }
                 #[inline(always)]
                 pub fn swap(&self, v: $prim, order: Ordering) -> $prim {
-                    emit(EventKind::Rmw, self.addr(), $tag);
+                    // reported like a compare-exchange: whether it wrote anything is only known afterwards
+                    emit(EventKind::Cas, self.addr(), $tag);
                     let old = self.0.swap(v, order);
                     emit(if old == v { EventKind::SwapSame } else { EventKind::SwapChanged }, self.addr(), $tag);
                     old
